@@ -20,19 +20,27 @@ var c17Kinds = []struct {
 	name   string // %d = interface index
 	doc    string
 	marked bool
+	alias  bool // declared as `type X = interface{...}`
+	empty  bool // no methods
 }{
-	{"Convergen", "Convergen", "", true},
-	{"docMarked", "Conv%d", "// :convergen\n", true},
-	{"docMarkedNoSpace", "Conv%d", "//:convergen\n", true},
-	{"docMarkedWithText", "Conv%d", "// Conv converts.\n// :convergen\n// :typecast\n", true},
-	{"notAtLineStart", "Conv%d", "// see :convergen\n", false},
-	{"suffixX", "Conv%d", "// :convergenX\n", false},
-	{"unmarked", "Conv%d", "", false},
-	{"unmarkedNotations", "Conv%d", "// :typecast\n// :style arg\n", false},
-	{"lowercaseName", "convergen", "", false},
-	{"nameSuffix", "ConvergenX", "", false},
-	{"namePrefix", "MyConvergen", "// Convergen-like name.\n", false},
-	{"docMarkedEmbedding", "Emb%d", "// :convergen\n", true},
+	{"Convergen", "Convergen", "", true, false, false},
+	{"docMarked", "Conv%d", "// :convergen\n", true, false, false},
+	{"docMarkedNoSpace", "Conv%d", "//:convergen\n", true, false, false},
+	{"docMarkedWithText", "Conv%d", "// Conv converts.\n// :convergen\n// :typecast\n", true, false, false},
+	{"notAtLineStart", "Conv%d", "// see :convergen\n", false, false, false},
+	{"suffixX", "Conv%d", "// :convergenX\n", false, false, false},
+	{"unmarked", "Conv%d", "", false, false, false},
+	{"unmarkedNotations", "Conv%d", "// :typecast\n// :style arg\n", false, false, false},
+	{"lowercaseName", "convergen", "", false, false, false},
+	{"nameSuffix", "ConvergenX", "", false, false, false},
+	{"namePrefix", "MyConvergen", "// Convergen-like name.\n", false, false, false},
+	{"docMarkedEmbedding", "Emb%d", "// :convergen\n", true, false, false},
+	// the alias form of a type declaration with the interface literal on the right-hand side
+	{"aliasMarked", "Conv%d", "// :convergen\n", true, true, false},
+	{"aliasUnmarked", "Conv%d", "", false, true, false},
+	// a converter interface without methods (freshly scaffolded): nothing to generate for it, it must not disturb the others
+	{"emptyMarked", "Conv%d", "// :convergen\n", true, false, true},
+	{"emptyUnmarked", "Conv%d", "// Conv is empty.\n", false, false, true},
 }
 
 var c17Siblings = []struct{ id, src string }{
@@ -73,11 +81,17 @@ func c17Cell(kinds []int, sib, recv int) *scen.Cell {
 			sb.WriteString(fmt.Sprintf("type Part%d interface {\n\tP%da(*S2) *D\n}\n\n", i, i))
 		}
 		sb.WriteString(kd.doc)
-		sb.WriteString("type " + name + " interface {\n")
+		if kd.alias {
+			sb.WriteString("type " + name + " = interface {\n")
+		} else {
+			sb.WriteString("type " + name + " interface {\n")
+		}
 		if kd.id == "docMarkedEmbedding" {
 			sb.WriteString(fmt.Sprintf("\tPart%d\n", i))
 		}
-		if recv == 1 {
+		if kd.empty {
+			// no methods
+		} else if recv == 1 {
 			// same method name under different receivers
 			src := []string{"*S", "*S2", "*D"}[i%3]
 			sb.WriteString("\t// :recv r\n\tToD(" + src + ") *D\n")
@@ -125,7 +139,7 @@ func init() {
 			})
 		}
 		e.Rep.Bound("interfaces_per_file_max", maxIntf)
-		e.Rep.Rule(fmt.Sprintf("every sequence of up to %d interfaces in the input file, each of %d marking kinds (named Convergen, :convergen doc line in 3 spellings, :convergen not at line start, :convergenX, unmarked, unmarked with notations, convergen / ConvergenX / MyConvergen names) "+
+		e.Rep.Rule(fmt.Sprintf("every sequence of up to %d interfaces in the input file, each of %d marking kinds (named Convergen, :convergen doc line in 3 spellings, :convergen not at line start, :convergenX, unmarked, unmarked with notations, convergen / ConvergenX / MyConvergen names, marked interface embedding an unmarked one, alias form `type X = interface{…}` marked / unmarked, method-less interface marked / unmarked) "+
 			"x %d sibling-file variants (marked / unmarked interfaces under the convergen tag or in the ordinary build) x {distinct method names, same method name under different :recv}; "+
 			"oracle: generated functions == methods of the input file's interfaces that are named exactly Convergen or carry a :convergen doc line; every other interface carried over identically; nothing generated for sibling files; no marked interface => non-zero exit; "+
 			"non-trivial = mix containing both a selected and an unselected interface (or a sibling-file interface)", maxIntf, nk, len(c17Siblings)))
@@ -153,6 +167,20 @@ func init() {
 				return fs
 			}
 			t.AddValidated(1)
+			onlyEmpty := anyMarked
+			for _, k := range m.Kinds {
+				if c17Kinds[k].marked && !c17Kinds[k].empty {
+					onlyEmpty = false
+				}
+			}
+			if onlyEmpty && o.Res.Exit != 0 {
+				// every converter interface of the file is empty: nothing to generate, either answer is fine as long as it is not silent
+				t.Outcome("only-empty-converters: rejected")
+				if strings.TrimSpace(o.Res.Stderr) == "" {
+					add("rejected-silently", "rejected without a message")
+				}
+				return fs
+			}
 			if !anyMarked {
 				t.Family("no-marked-interface", o.Res.Exit == 0, false)
 				if o.Res.Exit == 0 {
@@ -177,7 +205,7 @@ func init() {
 			// expected functions from the cell description (independent of refgen)
 			var want []string
 			for i, k := range m.Kinds {
-				if !c17Kinds[k].marked {
+				if !c17Kinds[k].marked || c17Kinds[k].empty {
 					continue
 				}
 				if m.Recv == 1 {
